@@ -1,6 +1,6 @@
 (* Collateral ledger facts: conservation through every primitive, handler and dispatch (C03). *)
 From MP.Model Require Import Prelude U128 SInt Feed Vamm VammOps Token World Engine Runtime.
-From MP.Proofs Require Import Tactics RuntimeFacts.
+From MP.Proofs Require Import Tactics MapFacts RuntimeFacts.
 
 Definition lookup0 (k : Z) (l : list (Z * Z)) : Z := match zfind k l with Some b => b | None => 0 end.
 
@@ -9,22 +9,6 @@ Proof.
   unfold lookup0. induction l as [|[k' b] t IH]; cbn [zset zfind sum_bal].
   - rewrite Z.eqb_refl || idtac. cbn. lia.
   - destruct (k =? k') eqn:E; cbn [sum_bal]; [lia|]. rewrite IH. lia.
-Qed.
-
-Lemma zfind_zset_same {A} k (v : A) l : zfind k (zset k v l) = Some v.
-Proof.
-  induction l as [|[k' b] t IH]; cbn [zset zfind].
-  - rewrite Z.eqb_refl. reflexivity.
-  - destruct (k =? k') eqn:E; cbn [zfind]; rewrite ?Z.eqb_refl, ?E; auto.
-Qed.
-
-Lemma zfind_zset_other {A} k k2 (v : A) l : k2 <> k -> zfind k2 (zset k v l) = zfind k2 l.
-Proof.
-  intros Hn. induction l as [|[k' b] t IH]; cbn [zset zfind].
-  - destruct (Z.eqb_spec k2 k); [lia|reflexivity].
-  - destruct (Z.eqb_spec k k'); cbn [zfind].
-    + subst. destruct (Z.eqb_spec k2 k'); [lia|reflexivity].
-    + destruct (k2 =? k'); auto.
 Qed.
 
 Lemma bal_set_same t a v : bal (set_bal t a v) a = v.
